@@ -297,9 +297,10 @@ func (t *Thread) processIncomingInterest(packet *defn.Pkt) {
 	// If NextHopFaceId set, forward to that face (if it exists) or drop
 	if packet.NextHopFaceID != nil {
 		if nhFace := dispatch.GetFace(*packet.NextHopFaceID); nhFace != nil &&
+			!(nhFace.FaceID() == *packet.IncomingFaceID && nhFace.LinkType() != defn.AdHoc) &&
 			!(nhFace.Scope() == defn.NonLocal && len(interest.NameV) > 0 && bytes.Equal(interest.NameV[0].Val, LOCALHOST)) {
 			core.LogTrace(t, "NextHopFaceId is set for Interest ", packet.Name, " - dispatching directly to face")
-			dispatch.GetFace(*packet.NextHopFaceID).SendPacket(dispatch.OutPkt{
+			nhFace.SendPacket(dispatch.OutPkt{
 				Pkt:      packet,
 				PitToken: packet.PitToken, // TODO: ??
 				InFace:   packet.IncomingFaceID,
